@@ -27,18 +27,32 @@ struct Prog {
     id: &'static str,
     text: Option<&'static str>,
     uses_std: bool,
+    /// further files next to the main file
+    extra: &'static [(&'static str, &'static str)],
+    /// by construction the project must be rejected with at least this many errors (independent of what the
+    /// in-process compile of the same tree says)
+    must_reject: Option<usize>,
 }
 
 const PROGS: &[Prog] = &[
-    Prog { id: "clean", text: Some("start :: fn do\n    x := 1 + 2\n    x <=> 3\nend\n"), uses_std: false },
-    Prog { id: "assert-fails", text: Some("start :: fn do\n    1 <=> 2\nend\n"), uses_std: false },
-    Prog { id: "unreachable", text: Some("start :: fn do\n    <!>\nend\n"), uses_std: false },
-    Prog { id: "rejected-1-error", text: Some("start :: fn do\n    x := 1 + \"a\"\nend\n"), uses_std: false },
-    Prog { id: "rejected-2-errors", text: Some("f :: fn do\n    nope1\nend\nstart :: fn do\n    nope2\nend\n"), uses_std: false },
-    Prog { id: "syntax-error", text: Some("start :: fn do\n    x := 1 +\nend\n"), uses_std: false },
-    Prog { id: "std-clean", text: Some("start :: fn do\n    l := [1, 2]\n    list.push(l, 3)\n    list.len(l) <=> 3\n    print(l)\nend\n"), uses_std: true },
-    Prog { id: "std-assert-fails", text: Some("start :: fn do\n    print(\"before\")\n    list.len([1]) <=> 2\nend\n"), uses_std: true },
-    Prog { id: "missing-file", text: None, uses_std: false },
+    Prog { id: "clean", text: Some("start :: fn do\n    x := 1 + 2\n    x <=> 3\nend\n"), uses_std: false, extra: &[], must_reject: None },
+    Prog { id: "assert-fails", text: Some("start :: fn do\n    1 <=> 2\nend\n"), uses_std: false, extra: &[], must_reject: None },
+    Prog { id: "unreachable", text: Some("start :: fn do\n    <!>\nend\n"), uses_std: false, extra: &[], must_reject: None },
+    Prog { id: "rejected-1-error", text: Some("start :: fn do\n    x := 1 + \"a\"\nend\n"), uses_std: false, extra: &[], must_reject: None },
+    Prog { id: "rejected-2-errors", text: Some("f :: fn do\n    nope1\nend\nstart :: fn do\n    nope2\nend\n"), uses_std: false, extra: &[], must_reject: None },
+    Prog { id: "syntax-error", text: Some("start :: fn do\n    x := 1 +\nend\n"), uses_std: false, extra: &[], must_reject: None },
+    Prog { id: "std-clean", text: Some("start :: fn do\n    l := [1, 2]\n    list.push(l, 3)\n    list.len(l) <=> 3\n    print(l)\nend\n"), uses_std: true, extra: &[], must_reject: None },
+    Prog { id: "std-assert-fails", text: Some("start :: fn do\n    print(\"before\")\n    list.len([1]) <=> 2\nend\n"), uses_std: true, extra: &[], must_reject: None },
+    Prog { id: "missing-file", text: None, uses_std: false, extra: &[], must_reject: None },
+    // several files
+    Prog { id: "two-files-clean", text: Some("use helper\nstart :: fn do\n    helper.twice(2) <=> 4\nend\n"), uses_std: false, extra: &[("helper.sy", "twice :: fn x: int -> int\n    x * 2\nend\n")], must_reject: None },
+    Prog { id: "error-only-in-imported-file", text: Some("use helper\nstart :: fn do\n    helper.twice(2) <=> 4\nend\n"), uses_std: false, extra: &[("helper.sy", "twice :: fn x: int -> int\n    x * \"a\"\nend\n")], must_reject: Some(1) },
+    Prog { id: "syntax-errors-in-importer-and-imported", text: Some("use helper\nstart :: fn do\n    x := 1 +\nend\n"), uses_std: false, extra: &[("helper.sy", "y := )\n")], must_reject: Some(2) },
+    Prog { id: "syntax-errors-in-a-chain-of-three", text: Some("use helper\nstart :: fn do\n    x := 1 +\nend\n"), uses_std: false, extra: &[("helper.sy", "use deeper\ny := )\n"), ("deeper.sy", "z := (\n")], must_reject: Some(3) },
+    Prog { id: "start-only-in-imported-module", text: Some("use helper\nx :: helper.twice(1)\n"), uses_std: false, extra: &[("helper.sy", "twice :: fn x: int -> int\n    x * 2\nend\nstart :: fn do\n    twice(1) <=> 2\nend\n")], must_reject: Some(1) },
+    Prog { id: "start-with-wrong-type", text: Some("start :: fn x: int do\nend\n"), uses_std: false, extra: &[], must_reject: Some(1) },
+    // a program that does not use std but has locals named like std namespaces
+    Prog { id: "std-free-locals-named-like-std-modules", text: Some("P :: blob { value: int }\nf :: fn set: P, list: P -> int\n    set.value + list.value\nend\nstart :: fn do\n    dict :: P { value: 1 }\n    f(dict, P { value: 2 }) <=> 3\n    dict.value <=> 1\nend\n"), uses_std: false, extra: &[], must_reject: None },
 ];
 
 /// the pre-existing output file is longer than any compiled program, so a missing truncation shows
@@ -80,7 +94,16 @@ pub fn run(run: &mut Run) {
     let _ = std::os::unix::fs::symlink(&lua, root.join("bin/lua"));
     for p in PROGS {
         if let Some(t) = p.text {
-            std::fs::write(root.join("src").join(format!("{}.sy", p.id)), t).unwrap();
+            // projects with further files live in a directory of their own
+            if p.extra.is_empty() {
+                std::fs::write(root.join("src").join(format!("{}.sy", p.id)), t).unwrap();
+            } else {
+                std::fs::create_dir_all(root.join("src").join(p.id)).unwrap();
+                std::fs::write(root.join("src").join(p.id).join("main.sy"), t).unwrap();
+                for (n, x) in p.extra {
+                    std::fs::write(root.join("src").join(p.id).join(n), x).unwrap();
+                }
+            }
         }
     }
     let thorough = run.thorough();
@@ -89,7 +112,15 @@ pub fn run(run: &mut Run) {
     let preamble = preamble_text().to_string();
     let mut seq = 0u64;
     for p in PROGS {
-        let src = root.join("src").join(format!("{}.sy", p.id));
+        let src = if p.extra.is_empty() { root.join("src").join(format!("{}.sy", p.id)) } else { root.join("src").join(p.id).join("main.sy") };
+        let all_files = |t: &str| -> Files {
+            let mut files = Files::new();
+            files.insert(src.display().to_string(), t.to_string());
+            for (n, x) in p.extra {
+                files.insert(src.parent().unwrap().join(n).display().to_string(), x.to_string());
+            }
+            files
+        };
         for no_std in [false, true] {
             for require in [None, Some("mymod"), Some("lib.util"), Some("dir/mod.lua")] {
                 for verbose in [false, true] {
@@ -99,25 +130,18 @@ pub fn run(run: &mut Run) {
                     // expected compile result (in-process, same flags)
                     let expect_compile: Option<Vec<u8>> = match p.text {
                         None => None,
-                        Some(t) => {
-                            let mut files = Files::new();
-                            files.insert(src.display().to_string(), t.to_string());
-                            match compile_with(&files, &src.display().to_string(), &CompileOpts { no_std, require, render: false }) {
-                                Outcome::Ok(b) => Some(b),
-                                _ => None,
-                            }
-                        }
+                        Some(_) if p.must_reject.is_some() => None,
+                        Some(t) => match compile_with(&all_files(t), &src.display().to_string(), &CompileOpts { no_std, require, render: false }) {
+                            Outcome::Ok(b) => Some(b),
+                            _ => None,
+                        },
                     };
                     let n_errors = match p.text {
                         None => 1,
-                        Some(t) => {
-                            let mut files = Files::new();
-                            files.insert(src.display().to_string(), t.to_string());
-                            match compile_with(&files, &src.display().to_string(), &CompileOpts { no_std, require, render: false }) {
-                                Outcome::Err { errs, .. } => errs.len(),
-                                _ => 0,
-                            }
-                        }
+                        Some(t) => match compile_with(&all_files(t), &src.display().to_string(), &CompileOpts { no_std, require, render: false }) {
+                            Outcome::Err { errs, .. } => errs.len().max(p.must_reject.unwrap_or(0)),
+                            _ => p.must_reject.unwrap_or(0),
+                        },
                     };
                     let mut base_args: Vec<String> = Vec::new();
                     if no_std {
@@ -303,7 +327,7 @@ pub fn run(run: &mut Run) {
     st.transitions = st.evaluations;
     st.traces_validated = st.evaluations;
     run.stats = st;
-    run.rule = "full product of program class (clean, assertion fails, <!>, rejected with 1 and 2 errors, syntax error, std-using clean and failing, missing file) x --no-std x --require x -v x output mode (run, -o -, -o FILE over absent / existing / missing directory / is-a-directory); distinct by configuration; every configuration is non-trivial".into();
+    run.rule = "full product of program class (clean, assertion fails, <!>, rejected with 1 and 2 errors, syntax error, std-using clean and failing, missing file, two-file projects: clean / error only in the imported file / syntax errors in importer and imported / in a chain of three files / `start` only in an imported module, `start` of the wrong type, a std-free program whose locals are named like std modules) x --no-std x --require x -v x output mode (run, -o -, -o FILE over absent / existing / missing directory / is-a-directory); distinct by configuration; every configuration is non-trivial".into();
     run.bounds = json!({"programs": PROGS.iter().map(|p| p.id).collect::<Vec<_>>()});
     run.assumptions = vec![
         "`lua` on PATH is the MiniLua CLI".into(),
